@@ -565,15 +565,17 @@ pub fn c06(a: &Analysis<'_>, out: &mut Vec<Violation>) {
         let mut serial_ready = false;
         for sc in a.st.scenarios.values() {
             let Some(d) = delivered_at.get(sc.feature.as_str()) else { continue };
-            if *d >= t_fin {
+            if started_names.contains(sc.name.as_str()) {
                 continue;
             }
-            if !started_names.contains(sc.name.as_str()) {
-                if sc.serial {
+            if sc.serial {
+                // A serial scenario that was handed over at any time before this quiescent point
+                // may have been seen by the runner's `get()`: then it rightly starts nothing else.
+                if *d <= q.clock {
                     serial_ready = true;
-                } else {
-                    ready += 1;
                 }
+            } else if *d < t_fin {
+                ready += 1;
             }
         }
         // retries waiting: conservative — only count those with zero delay known, finished before t_fin
